@@ -79,6 +79,21 @@ Dim(g) ==
       [] g.t = "Triangle" -> IF Cross(g.a, g.b, g.c) # 0 THEN 2 ELSE IF g.a = g.b /\ g.b = g.c THEN 0 ELSE 1
       [] g.t = "GeometryCollection" -> IF Len(g.gs) = 0 THEN -1 ELSE SetMax({Dim(g.gs[i]) : i \in DOMAIN g.gs})
 
+\* ---- dimension of the boundary (OGC-SFA): points have none, an open curve its two end points, a closed one none,
+\* multi-curves follow the mod-2 rule, areas have curves
+OddEndpoints(ls) == \E i \in DOMAIN ls : Len(ls[i]) >= 2 /\ ls[i][1] # ls[i][Len(ls[i])] /\
+    \E e \in {ls[i][1], ls[i][Len(ls[i])]} :
+        ((Cardinality({j \in DOMAIN ls : Len(ls[j]) >= 2 /\ ls[j][1] # ls[j][Len(ls[j])] /\ ls[j][1] = e})
+          + Cardinality({j \in DOMAIN ls : Len(ls[j]) >= 2 /\ ls[j][1] # ls[j][Len(ls[j])] /\ ls[j][Len(ls[j])] = e})) % 2) = 1
+RECURSIVE BDim(_)
+BDim(g) ==
+    CASE g.t \in {"Point", "MultiPoint"} -> -1
+      [] g.t = "Line" -> IF g.a = g.b THEN -1 ELSE 0
+      [] g.t = "LineString" -> IF Dim(g) <= 0 \/ g.cs[1] = g.cs[Len(g.cs)] THEN -1 ELSE 0
+      [] g.t = "MultiLineString" -> IF OddEndpoints(g.ls) THEN 0 ELSE -1
+      [] g.t \in {"Polygon", "MultiPolygon", "Rect", "Triangle"} -> IF Dim(g) <= 0 THEN -1 ELSE Dim(g) - 1
+      [] g.t = "GeometryCollection" -> IF Len(g.gs) = 0 THEN -1 ELSE SetMax({BDim(g.gs[i]) : i \in DOMAIN g.gs})
+
 \* ---- segments and vertices of a geometry (sets)
 RingSegs(r) == {<<r[i], r[i+1]>> : i \in Edges(r)}
 PathSegs(cs) == IF Len(cs) = 1 THEN {<<cs[1], cs[1]>>} ELSE RingSegs(cs)
